@@ -154,6 +154,34 @@ func boundsOf(d *Affine, fs []intFact) (lo, hi *int64) {
 		}
 	}
 	for _, f := range fs {
+		// d = m*G + k for an integer m with |m| >= 2 (d = 4*i - 4*n from i - n <= -1)
+		if !f.G.Top && len(f.G.Term) > 0 {
+			for key, g := range f.G.Term {
+				dc, has := d.Term[key]
+				if !has || g == 0 || dc%g != 0 {
+					break
+				}
+				m := dc / g
+				if m == 1 || m == -1 || m == 0 {
+					break
+				}
+				if k, ok := d.Add(f.G, -m).IsConst(); ok {
+					var l, h *int64
+					lo2, hi2 := f.Lo, f.Hi
+					if m < 0 {
+						lo2, hi2 = f.Hi, f.Lo
+					}
+					if lo2 != nil {
+						l = i64(*lo2*m + k)
+					}
+					if hi2 != nil {
+						h = i64(*hi2*m + k)
+					}
+					upd(l, h)
+				}
+				break
+			}
+		}
 		if k, ok := d.Add(f.G, -1).IsConst(); ok { // d = G + k
 			var l, h *int64
 			if f.Lo != nil {
@@ -203,6 +231,11 @@ func nonNegative(v *Val, conds []Cond) bool {
 	v = stripCT(v)
 	if n, ok := v.Int64(); ok {
 		return n >= 0
+	}
+	if v.Type != nil && (v.Op == "wire" || v.Op == "init" || v.Op == "param" || v.Op == "elem") {
+		if b, ok := v.Type.Underlying().(*types.Basic); ok && b.Info()&types.IsUnsigned != 0 {
+			return true // a value of an unsigned type
+		}
 	}
 	switch v.Op {
 	case "len", "cap", "buflen", "short":
@@ -303,6 +336,35 @@ type safety struct {
 	minSizeMemo    map[string]int64
 }
 
+// freshNonNil: v is a heap allocation, a made map, or the result of a module function (a constructor) every return of
+// which is one – a value that is provably not nil.
+func freshNonNil(v ssa.Value, depth int) bool {
+	switch x := v.(type) {
+	case *ssa.Alloc:
+		return x.Heap
+	case *ssa.MakeMap:
+		return true
+	case *ssa.Call:
+		callee := x.Call.StaticCallee()
+		if callee == nil || callee.Blocks == nil || depth > 3 || callee.Signature.Results().Len() != 1 {
+			return false
+		}
+		n := 0
+		for _, b := range callee.Blocks {
+			for _, in := range b.Instrs {
+				if r, ok := in.(*ssa.Return); ok {
+					n++
+					if len(r.Results) != 1 || !freshNonNil(r.Results[0], depth+1) {
+						return false
+					}
+				}
+			}
+		}
+		return n > 0
+	}
+	return false
+}
+
 func (a *Analysis) newSafety() *safety {
 	s := &safety{a: a, globalsNonNil: map[*ssa.Global]bool{}, tablesFresh: map[string]string{}, minSizeMemo: map[string]int64{}}
 	// globals
@@ -328,10 +390,8 @@ func (a *Analysis) newSafety() *safety {
 			if !isInitFunc(fn) {
 				ok = false
 			}
-			if al, isA := st.Val.(*ssa.Alloc); !isA || !al.Heap {
-				if _, isM := st.Val.(*ssa.MakeMap); !isM {
-					ok = false
-				}
+			if !freshNonNil(st.Val, 0) {
+				ok = false
 			}
 		}
 		s.globalsNonNil[g] = ok
@@ -461,6 +521,17 @@ func (s *safety) dischargePanicSite(p *Path, ix *pathIndex, e *Event, conds []Co
 			}
 		}
 		return false, "PutUintN target " + sl.Pretty() + " may be shorter than the number"
+	case "getuint":
+		sl, n := stripCT(e.Args[0]), e.Args[1]
+		need, _ := n.Int64()
+		ln := mkLen(sl)
+		if w, ok := affOf(ln).IsConst(); ok && w >= need {
+			return true, "slice has the required constant length"
+		}
+		if condHolds(conds, n, "<=", ln) {
+			return true, "slice length bounded below by dominating conditions"
+		}
+		return false, "UintN source " + sl.Pretty() + " may be shorter than the number"
 	case "slice2array":
 		x, n := e.Args[0], e.Args[1]
 		if condHolds(conds, n, "<=", mkLen(x)) {
@@ -637,7 +708,7 @@ func (s *safety) checkNoPanic(rep *Report, prefix string, key string, fn *ssa.Fu
 			switch e.Kind {
 			case EvPanicSite:
 				ok, why := s.dischargePanicSite(p, ix, e, conds)
-				rule := prefix + "1-" + map[string]string{"nilderef": "nil", "nilinvoke": "nil", "nilrecv": "nil", "index": "bounds", "slice": "bounds", "putuint": "bounds", "repeat-count": "bounds", "slice2array": "bounds", "assert": "type-assertion", "divide": "arith", "shift": "arith", "panic": "explicit-panic"}[e.Mode]
+				rule := prefix + "1-" + map[string]string{"nilderef": "nil", "nilinvoke": "nil", "nilrecv": "nil", "index": "bounds", "slice": "bounds", "putuint": "bounds", "getuint": "bounds", "repeat-count": "bounds", "slice2array": "bounds", "assert": "type-assertion", "divide": "arith", "shift": "arith", "panic": "explicit-panic"}[e.Mode]
 				rep.Ob(rule, key+":"+e.Mode+"@"+site, ok, epos, e.Mode+" may panic: "+why)
 				if ok && len(rep.Samples) < 8 {
 					rep.Sample(map[string]interface{}{"root": key, "site": epos, "panic_site": e.String(), "discharged_by": why})
@@ -698,6 +769,11 @@ func (s *safety) checkNoPanic(rep *Report, prefix string, key string, fn *ssa.Fu
 						}
 					}
 					countFromWire := e.Count.Contains(func(x *Val) bool { return x.Op == "wire" || x.Op == "unknown" || x.Op == "short" })
+					if e.Bounded == "range" {
+						// ranges over a slice, array or string already in memory: at most one iteration per element, and the
+						// size of what is in memory is bounded by the input (C10)
+						countFromWire = false
+					}
 					if bounded && !countFromWire {
 						rep.Ob(prefix+"2-loop-bounded", key+":loop@"+site, true, "", "")
 					} else {
@@ -939,11 +1015,29 @@ func boundedByInput(v *Val, conds []Cond) (bool, string) {
 			for o.Op == "conv" {
 				o = stripCT(o.Args[0])
 			}
+			if _, div := lenOverConst(o); div {
+				// v <= buf.Len()/k implies v <= buf.Len()
+				if saysAtMost(c, side) && affOf(stripIntConv(cv.Args[side])).Equal(affOf(stripIntConv(v))) && !affOf(stripIntConv(v)).Top {
+					return true, "guarded by " + c.String()
+				}
+				continue
+			}
 			if o.Op != "buflen" {
 				continue
 			}
 			if condHolds([]Cond{c}, v, "<=", cv.Args[1-side]) {
 				return true, "guarded by " + c.String()
+			}
+			// k*v <= buf.Len() with a constant k >= 1 and v >= 0 implies v <= buf.Len()
+			if saysAtMost(c, side) && nonNegative(v, conds) {
+				av, ao := affOf(stripIntConv(v)), affOf(cv.Args[side])
+				if !av.Top && !ao.Top && len(av.Term) == 1 && av.C == 0 {
+					for k := int64(2); k <= 16; k++ {
+						if ao.Equal(av.Scale(k)) {
+							return true, "guarded by " + c.String()
+						}
+					}
+				}
 			}
 		}
 	}
